@@ -206,6 +206,33 @@ def gen_fuzz_world(rng):
     return w
 
 
+def gen_tight_world(rng):
+    """single-task graphs competing for one slot with EXACTLY tight cumulative deadlines under an enforcing TetriSched
+    planner: the only plan that meets every deadline runs them back to back (one task starts at the instant the previous
+    one ends)"""
+    k = rng.randint(2, 3)
+    n = rng.choice(["CPU", "GPU"])
+    graphs, profiles = [], []
+    total = 0
+    for i in range(k):
+        rt = rng.choice([2, 3, 5, 10])
+        total += rt
+        profiles.append({"name": "prof_T%d" % i, "execution_strategies": [
+            {"batch_size": 1, "runtime": rt, "resource_requirements": {"%s:any" % n: 1}}]})
+        graphs.append({"name": "T%d" % i, "graph": [{"name": "A", "work_profile": "prof_T%d" % i}], "release_policy": "fixed",
+                       "period": 0, "invocations": 1, "start": 0,
+                       # (the variance is a percentage of the critical path: deadline = release + rt + rt * v / 100 = total)
+                       "deadline_variance": [100.0 * (total - rt) / rt] * 2})
+    policy = rng.choice(["TetriSched_Gurobi", "TetriSched_CPLEX"])
+    flags = {"scheduler": policy, "scheduler_runtime": 0, "random_seed": rng.randint(0, 10 ** 6), "scheduler_frequency": -1,
+             "scheduler_delay": 0, "runtime_variance": 0, "loop_timeout": 300, "scheduler_run_at_worker_free": False,
+             "scheduler_lookahead": 0, "release_taskgraphs": False, "retract_schedules": rng.random() < 0.3,
+             "enforce_deadlines": True, "scheduler_time_discretization": 1, "scheduler_plan_ahead": -1}
+    return {"workload": {"graphs": graphs, "profiles": profiles},
+            "workers": [{"name": "P0", "workers": [{"name": "W0", "resources": [{"name": n, "quantity": 1}]}]}],
+            "flags": flags, "policy": policy, "wall_limit": 240}
+
+
 def gen_direct_world(rng):
     """a workload handed to the simulator as TaskGraphs built directly (Workload.from_task_graphs, the way the task loaders
     do it): the dependency-free tasks of ONE graph carry DIFFERENT release times (successive frames of a pipelined source)"""
